@@ -256,10 +256,11 @@ func (a c19Answer) send(p *rawpeer.Peer) error {
 }
 
 // c19Verdict is the reference's judgement of an AcceptVersion.
-//   may   the initiator is entitled to complete (proposed, strictly valid, own magic)
-//   grey  proposed and only decoder tolerance separates the data from a valid
-//         own-magic item (counted, never flagged either way)
-//   vclass/dclass name the class for the finding key when it completes anyway
+//
+//	may   the initiator is entitled to complete (proposed, strictly valid, own magic)
+//	grey  proposed and only decoder tolerance separates the data from a valid
+//	      own-magic item (counted, never flagged either way)
+//	vclass/dclass name the class for the finding key when it completes anyway
 func c19Verdict(a c19Answer, prop proposal, own uint32) (may, grey bool, vclass, dclass string, d vdata) {
 	vi, known := refVersion(a.Version)
 	switch {
